@@ -171,7 +171,7 @@ fn forged_probes(p: &Params, rep: &mut Report) {
 pub fn run(p: &Params) -> Report {
     let mut rep = Report::new("C18");
     forged_probes(p, &mut rep);
-    rep.rule = "cases = DoscMint transactions applied to fabricated states: real MelPoW proofs generated with the harness's own legacy and TIP-910 hash functions (difficulty 1..10 quick, ..14 thorough), coin ages 1..200 at heights around 1.1 million and on young chains of 2..141 blocks (coins of the genesis block), previous DOSC speeds 1..10^6 so that the reward ranges from 0 to large, ERG created at reward-1 / reward / reward+1, on custom networks and on mainnet (age below/at/above 100); corruptions: flipped proof byte, dropped node, proof for another coin / another creation height, stated difficulty +-1, garbage data, several mints in one block. Oracle: accept iff data decodes, the proof verifies (reference call into melpow with the harness's hashers) for puzzle = keyed-hash(header at the coin's creation height, coin id), ERG <= floor(inflator(h) * floor(work*speed*10^6/(prev_speed^2*2880)) / 10^6), and on mainnet age >= 100; sealed dosc_speed = max(previous, speeds of accepted mints) and never decreases. Non-trivial = every case; distinct by transaction hash".into();
+    rep.rule = "cases = DoscMint transactions applied to fabricated states: real MelPoW proofs generated with the harness's own legacy and TIP-910 hash functions (difficulty 1..10 quick, ..14 thorough), coin ages 1..200 at heights around 1.1 million and on young chains of 2..141 blocks (coins of the genesis block), previous DOSC speeds 1..10^6 (and, one case in eight, 2^64..2^96) so that the reward ranges from 0 to large, ERG created at reward-1 / reward / reward+1, on custom networks and on mainnet (age below/at/above 100); corruptions: flipped proof byte, dropped node, proof for another coin / another creation height, stated difficulty +-1, garbage data, several mints in one block. Oracle: accept iff data decodes, the proof verifies (reference call into melpow with the harness's hashers) for puzzle = keyed-hash(header at the coin's creation height, coin id), ERG <= floor(inflator(h) * floor(work*speed*10^6/(prev_speed^2*2880)) / 10^6), and on mainnet age >= 100; sealed dosc_speed = max(previous, speeds of accepted mints) and never decreases. Non-trivial = every case; distinct by transaction hash".into();
     let total = p.n(4000, 80000);
     let mine = p.share(total);
     let mut rng = Rng::new(p.shard_seed() ^ 0xC18);
@@ -202,7 +202,12 @@ pub fn run(p: &Params) -> Report {
             age = apply_h; // a coin of the genesis block (height 0)
         }
         let coin_h = apply_h - age;
-        let prev_speed: u128 = *r.pick(&[1u128, 2, 10, 100, 1000, 10_000, 1_000_000]);
+        // (one case in eight: a recorded speed that needs more than 64 bits - reachable once a forged proof of
+        // difficulty 56 and later has been accepted, F23 - against which every honest reward is zero)
+        let prev_speed: u128 = if r.chance(1, 8) { *r.pick(&[(1u128 << 64) + 1000, (1u128 << 64) + 1, 1u128 << 64, (1u128 << 70) + 12345, (1u128 << 96) + 7]) } else { *r.pick(&[1u128, 2, 10, 100, 1000, 10_000, 1_000_000]) };
+        if prev_speed >= (1u128 << 64) {
+            rep.count("mints against a recorded DOSC speed of 2^64 or more");
+        }
         let tip910 = r.chance(1, 2);
         let difficulty: u32 = if tip910 { 1 + r.below(max_d.min(8)) as u32 } else { 1 + r.below(max_d) as u32 };
         let key = key_n(case_seed, 1);
@@ -552,6 +557,7 @@ pub fn run(p: &Params) -> Report {
         rep.require("accepted mints that raised the DOSC speed", p.n(50, 1000));
         rep.require("blocks with several mints", p.n(40, 800));
         rep.require("mints with the ERG spread over several outputs", p.n(100, 2000));
+        rep.require("mints against a recorded DOSC speed of 2^64 or more", p.n(100, 2000));
     }
     rep
 }
